@@ -203,60 +203,101 @@ def r2_writes_after_success(ctx):
     gen = [b for b in ctx.fb.bodies('pavexc', 'Executable') if not b.is_promoted and b.nid == 'pavexc::generate']
     gen = ctx.need('C09.R2', 'pavexc_cli generate()', gen[0] if gen else None)
     if gen is not None:
-        build = [bb for bb, t in gen.calls() if callee(t) == APP_BUILD]
-        codegen = [bb for bb, t in gen.calls() if callee(t) == PX + 'app::App::codegen']
-        writers = [(bb, t) for bb, t in gen.calls() if callee(t) in (PX + 'generated_app::GeneratedApp::persist', PX + 'app::App::persist_flat')
-                   or (callee(t) or '').startswith('pavexc::persistence::AppWriter::verify')]
-        ctx.need('C09.R2', 'App::build call in generate', build)
-        ctx.need('C09.R2', 'file writers in generate', writers)
-        # the app is carried in an Option: Some only on the Ok arm of build(), and the writers sit under its Some arm
-        opt_sw = [(sb, w) for sb, w in enum_switches(gen, 'core::option::Option') if 'pavexc::compiler::app::App' in gen.locals[w['src']['l']]]
-        ok_region, err_region = set(), set()
-        if build:
-            der = forward_derived(gen, {gen.term(build[0])['dest']['l']})
-            for sb, w in enum_switches(gen, 'core::result::Result'):
-                if w['src']['l'] in der:
-                    e = switch_edges(w)
-                    ok_region = gen.reachable(e.get('Ok'), avoid=[e.get('Err')]) - gen.reachable(e.get('Err'), avoid=[e.get('Ok')])
-                    err_region = gen.reachable(e.get('Err'), avoid=[e.get('Ok')]) - gen.reachable(e.get('Ok'), avoid=[e.get('Err')])
-        somes = [bb for bb, j, st in gen.all_assigns() if st['rv']['k'] == 'agg' and st['rv'].get('var') == 'Some'
-                 and 'pavexc::compiler::app::App' in gen.locals[st['lhs']['l']]]
-        ctx.ob('C09.R2', 'app-only-from-ok-arm', bool(somes) and all(x in ok_region for x in somes) and bool(err_region), gen.loc(build[0]) if build else gen.loc(),
-               'Some(app) is constructed only on the Ok arm of App::build (blocks %s)' % somes)
-        for bb, t in writers:
-            under_some = any(gen.dominates(sb, bb) and bb in gen.reachable(switch_edges(w).get('Some'), avoid=[sb]) and
-                             bb not in gen.reachable(w['else'] if 'None' not in switch_edges(w) else switch_edges(w)['None'], avoid=[sb, switch_edges(w).get('Some')])
-                             for sb, w in opt_sw)
-            ok = bool(build) and gen.dominates(build[0], bb) and under_some
-            if callee(t) == PX + 'generated_app::GeneratedApp::persist':
-                ok = ok and bool(codegen) and gen.dominates(codegen[0], bb)
-            ctx.ob('C09.R2', 'write-after-success|%s' % callee(t).split('::')[-1], ok, gen.loc(bb, t),
-                   '%s is reached only under the Some(app) arm, after App::build%s' % (callee(t).split('::')[-1], '/codegen()?' if 'GeneratedApp' in callee(t) else ''))
-        for sb, w in opt_sw:
-            e = switch_edges(w)
-            none_t = e.get('None', w['else'])
-            reg = gen.reachable(none_t, avoid=[e.get('Some'), sb])
-            fails = any('FAILURE' in str(o.get('uneval', '')) for bb in reg for st in gen.stmts(bb) if 'rv' in st for o in rv_operands(st['rv'])[0])
-            wr = [bb for bb, t in writers if bb in reg]
-            ctx.ob('C09.R2', 'failure-arm', fails and not wr, gen.loc(sb), 'without an app (build failed) generate returns ExitCode::FAILURE (%s) and reaches no writer (%s)' % (fails, not wr))
-        ctx.need('C09.R2', '`let Some(app) = app` in generate', opt_sw)
+        # P11 case evaluation: generate() interpreted for each outcome of App::build and App::codegen
+        from ..absint_std import StdSem, TagInterp
+        SDK_WRITER = PX + 'generated_app::GeneratedApp::persist'
+        WRITERS = {SDK_WRITER: 'persist', PX + 'app::App::persist_flat': 'persist_flat'}
+
+        class Sem(StdSem):
+            crate = None
+
+            def __init__(self, fb, build, codegen):
+                super().__init__(fb)
+                self.case = {APP_BUILD: build, PX + 'app::App::codegen': codegen}
+                self.seen = {}
+
+            def domain_call(self, interp, path, body, bb, term, short):
+                d = term.get('dest')
+                dk = (body.id, d['l']) if d is not None and not d.get('p') else None
+                if short in self.case and dk is not None:
+                    self.seen[short] = self.seen.get(short, 0) + 1
+                    path.alias.pop(dk, None)
+                    path.memo.pop(dk, None)
+                    path.tags[dk] = self.case[short]
+                    return [('next', path)]
+                w = WRITERS.get(short) or ('verify' if short.startswith('pavexc::persistence::AppWriter::verify') else None)
+                if w:
+                    path.env['w:' + w] = True
+                    self.seen['w:' + w] = True
+                return None
+
+            def domain_assign(self, interp, path, body, bb, st):
+                rv = st['rv']
+                ops = rv_operands(rv)[0]
+                for o in ops:
+                    u = str(o.get('uneval', ''))
+                    if 'ExitCode::FAILURE' in u:
+                        path.env['exit'] = 'FAILURE'
+                    elif 'ExitCode::SUCCESS' in u:
+                        path.env['exit'] = 'SUCCESS'
+                return None
+
+        results = {}
+        for bcase in ('res:Ok', 'res:Err'):
+            for ccase in ('res:Ok', 'res:Err'):
+                sem = Sem(ctx.fb, bcase, ccase)
+                outs = TagInterp(sem).run(gen, {})
+                results[(bcase, ccase)] = (sem, outs)
+        sem_e, outs_e = results[('res:Err', 'res:Ok')]
+        ctx.need('C09.R2', 'App::build call in generate', sem_e.seen.get(APP_BUILD))
+        wrote = sorted(k for k in sem_e.seen if k.startswith('w:'))
+        not_fail = [oc for oc in outs_e if oc[0] == 'return' and oc[1].tags.get((gen.id, 0)) != 'res:Err' and oc[1].env.get('exit') != 'FAILURE']
+        ctx.ob('C09.R2', 'build-failure-writes-nothing', not wrote and not not_fail and bool(outs_e), gen.loc(),
+               'generate() interpreted with App::build failing: writers reached: %s; returning paths that are neither Err nor ExitCode::FAILURE: %d of %d'
+               % (wrote or 'none', len(not_fail), len(outs_e)))
+        sem_c, outs_c = results[('res:Ok', 'res:Err')]
+        ctx.ob('C09.R2', 'write-after-success|persist', not sem_c.seen.get('w:persist') and bool(sem_c.seen.get(PX + 'app::App::codegen')), gen.loc(),
+               'generate() interpreted with App::codegen failing: the SDK writer GeneratedApp::persist is reached: %s' % bool(sem_c.seen.get('w:persist')))
+        sem_o, outs_o = results[('res:Ok', 'res:Ok')]
+        ctx.ob('C09.R2', 'success-writes-the-sdk', bool(sem_o.seen.get('w:persist')) and any(oc[0] == 'return' and oc[1].env.get('exit') == 'SUCCESS' for oc in outs_o), gen.loc(),
+               'generate() interpreted with build and codegen succeeding: GeneratedApp::persist is reached (%s) and a path returns ExitCode::SUCCESS'
+               % bool(sem_o.seen.get('w:persist')), nontrivial=False)
     # has_errored: None severity counts
     he = ctx.fb.bodies_of_item('pavexc', SINK + 'has_errored')
     if ctx.need('C09.R2', 'DiagnosticSink::has_errored', he):
         none_ok = False
         err_cmp = False
+
+        def yields_true(b, start):
+            """following straight-line control flow from `start`, a bool is set to `true` before any further test"""
+            bb, seen = start, set()
+            while bb is not None and bb not in seen:
+                seen.add(bb)
+                for s_ in b.stmts(bb):
+                    if s_.get('rv', {}).get('k') == 'use' and s_['rv']['op'].get('int') == '1' and b.locals[s_['lhs']['l']] == 'bool':
+                        return True
+                t_ = b.term(bb)
+                bb = t_['t'] if t_ and t_['k'] in ('goto', 'drop') else None
+            return False
         for b in he:
             for bb, t in b.calls():
                 if callee(t) == 'core::option::Option::is_none' and 'Severity' in t['aty'][0]:
                     none_ok = True
             for sb, st in enum_switches(b, 'core::option::Option'):
-                if 'None' in switch_edges(st):
+                e = switch_edges(st)
+                if 'None' in e and yields_true(b, e['None']):
+                    none_ok = True
+                if 'None' in e:
                     # None arm must produce `true`
                     arms = switch_arms(b, sb)
                     for bb in arms.get('None', ()):
                         for s in b.stmts(bb):
                             if s.get('rv', {}).get('k') == 'use' and s['rv']['op'].get('int') == '1':
                                 none_ok = True
+            for sb, st in enum_switches(b, 'miette::protocol::Severity'):
+                e = switch_edges(st)
+                if 'Error' in e and yields_true(b, e['Error']):
+                    err_cmp = True
             for bb, t in b.calls():
                 if (callee(t) or '').startswith('core::cmp::PartialEq::eq') and 'Severity' in t['aty'][0]:
                     err_cmp = True
